@@ -2,7 +2,7 @@
 import os
 import sys
 from pyvc.driver import main, native_bounded, VERIF
-from contracts import probe_native, c11_hostkey
+from contracts import probe_native, c11_hostkey, c09_parsers
 
 
 def custom_native(ip, runner):
@@ -14,8 +14,10 @@ def custom_native(ip, runner):
 
 def build(chk, ip, runner):
     chk.design_ref = 'DESIGN.md section 5 C11'
-    chk.units = c11_hostkey.small_units() + c11_hostkey.perform_units()
-    chk.stubs = c11_hostkey.perform_stubs()
+    # the reply/blob parsers: what is recorded is read from the presented blob (RSA: the modulus n and its length field), nothing but parse errors escape
+    parsers = [u for u in c09_parsers.units() if u.contract.qual in ('KexDH.__parse_ca_key', 'KexDH.__parse_reply')]
+    chk.units = c11_hostkey.small_units() + parsers + c11_hostkey.perform_units()
+    chk.stubs = c11_hostkey.perform_stubs() + c09_parsers.callee_contracts()
     chk.lemmas = ['val_be_word']
     chk.assumptions = ['perform_test unit: the socket (connect / get_banner / read_packet / close / is_connected) and the KexDH object (send_init, recv_reply, get_hostkey_size, get_ca_type, get_ca_size) are abstract: any result, KexDHException possible; the measured sizes are arbitrary non-negative integers',
                        'hashlib / base64 (fingerprints) are exercised by the bounded check only']
